@@ -57,6 +57,7 @@ type EngineRound struct {
 	Sequential []bool   `json:"sequential"`
 	Race       string   `json:"race,omitempty"`
 	Deadlock   bool     `json:"deadlock,omitempty"`
+	Bad        []string `json:"bad,omitempty"`
 }
 type Result struct {
 	Histories []History     `json:"histories,omitempty"`
@@ -375,6 +376,9 @@ func main() {
 		}
 		if e.Deadlock {
 			c.Violate("Engine.Execute/deadlock", "goroutines did not finish within 60s", input)
+		}
+		for _, b := range e.Bad {
+			c.Violate("Engine.Execute/shared-script-object-changed", b, input)
 		}
 		mixed := false
 		for i := range e.Sequential {
